@@ -141,7 +141,7 @@ def cases(ctx):
     docs = []
     for name, t in gen_text.fixture_texts():
         docs.append((t, frozenset(['fixture'])))
-    n = 150 if ctx.quick() else 3000
+    n = 150 if ctx.quick() else 15000
     for i in range(n):
         size = rng.choice([2, 3, 5, 8, 13, 30])
         err = rng.random() < 0.15
@@ -151,7 +151,7 @@ def cases(ctx):
     from .c08 import respell
     refgrammar.Gen.OPS = refgrammar.ops_from_table(core.REPO)
     kws = [l for (v, l, ic) in gen_text.token_literals()]
-    for i in range(40 if ctx.quick() else 800):
+    for i in range(40 if ctx.quick() else 3000):
         g = refgrammar.Gen(rng, kws)
         lex, lib = g.library(1)
         docs.append((respell(rng, lex, {'trivia', 'endif', 'kw'}), frozenset(['grammar-respelled'])))
